@@ -209,4 +209,21 @@ PROPS = {
         real=["mtail.Server (New, Run)", "tailer + file streams", "runtime + VMs", "exporter.New (no push)", "expvar counters"],
         stub=["waker.Waker (simulated ticks)"],
     ),
+    "C17": dict(
+        level="exploration",
+        quick=dict(runs=8000),
+        thorough=dict(runs=300000),
+        rule=("each run = one stream source reached through tailer.New (unix://, tcp://, unixgram:// or udp://, one-shot on or off) on the in-memory "
+              "transport, 1-4 writer tasks each writing 0-6 uniquely tagged lines (some long, some CRLF) in seeded chunks (stream sockets: optional "
+              "unterminated tail, then close; datagram sockets: 1-3 whole lines per datagram), short reads drawn per read, and in one run of three a "
+              "cancellation of the stream at a seeded scheduler step while writers are active (including just after a connection was accepted and "
+              "with bytes buffered but unread). Oracle: per connection the delivered lines equal the written ones in order, the tail once at close, "
+              "no line mixes two connections; with cancellation a prefix (the last delivery may be the part of a line already read); the output "
+              "channel closes, nothing panics (send on closed channel), no task remains. Non-trivial: >= 2 writers or an early cancellation."),
+        assumptions=["sockets are the in-memory stub simnet (blocking Accept/Read, past deadline fails a read even with data buffered, EOF after close and drain, Close unblocks with 'use of closed network connection'); named pipes and stdin are NOT covered by this check (a real kernel FIFO cannot be made to block durably inside the bubble without the read gate, which was not built)",
+                     "datagram senders send whole newline-terminated lines; no datagram loss or reordering is injected (the statement promises delivery in write order)"],
+        expect_probes=["cancel_with_conn_open", "tail_delivered_at_close", "partial_line_flushed_at_cancel"],
+        real=["logstream.socketStream (accept loop, closer, handleConn)", "logstream.dgramStream", "logstream.SetReadDeadlineOnDone / IsExitableError", "logstream.LineReader", "tailer.Tailer"],
+        stub=["net.Listener / net.Conn / net.PacketConn (simnet)", "waker.Waker"],
+    ),
 }
